@@ -70,7 +70,9 @@ def unquote_str(text:str, triple:bool=True) -> str:
     """
     if is_quoted(text, triple=triple):
         try:
-            s = literal_eval(text)
+            # A NUL character can't appear in python source code, 
+            # but it can in a config file: evaluate it as its escape.
+            s = literal_eval(text.replace('\x00', '\\x00'))
             assert isinstance(s, str)
         except Exception as e:
             raise ValueError(f"Error trying to unquote the quoted string: {text}: {e}") from e
